@@ -45,7 +45,7 @@ pub fn u16_to_le_pair(x: u16) -> (r: (u8, u8))
 pub assume_specification[ <u8 as core::convert::From<bool>>::from ](b: bool) -> (r: u8)
     ensures r == (if b { 1u8 } else { 0u8 });
 
-//@trusted T7 bitfield-struct derive on KnownKeyFlags (u16) / KnownFeatures (u8): the value is its bits; into_bits() returns them
+//@trusted T7 bitfields derive on KnownKeyFlags (u16) / KnownFeatures (u8): the value is its bits; into_bits() returns them (KnownKeyFlags from_bits/into_bits identity is checked on the compiled expansion by Kani unit K07c)
 #[derive(Clone, Copy)]
 pub struct KnownKeyFlags(pub u16);
 impl KnownKeyFlags {
